@@ -31,6 +31,7 @@ const (
 //	var                      Ts
 //	opt nu type sens iter itr alias   Ts[0]
 //	obj                      Path
+//	call                     Ts = the PRESENT parts in the order params, return, block; Has[i] tells which of the three are present
 type Ty struct {
 	K        string
 	Lo, Hi   int64
@@ -39,6 +40,7 @@ type Ty struct {
 	B        int
 	CI       bool
 	HasSize  bool
+	Has      [3]bool
 	S        []string
 	Ts       []Ty
 	Ms       []Member
@@ -132,6 +134,31 @@ func Iter(t Ty) Ty                           { return Wrap1("iter", t) }
 // Runtime is Runtime[runtime, name] / Runtime[runtime, name, Regexp[/pattern/]] (no Go type); Runtime("", "") is the default
 func Runtime(runtime, name string, pattern ...string) Ty {
 	return Ty{K: "rt", S: append([]string{runtime, name}, pattern...)}
+}
+// Call is Callable[params, return, block]; a nil part is absent.  Call(nil, nil, nil) is the default Callable.
+func Call(params, ret, block *Ty) Ty {
+	t := Ty{K: "call"}
+	for i, p := range []*Ty{params, ret, block} {
+		if p != nil {
+			t.Has[i] = true
+			t.Ts = append(t.Ts, *p)
+		}
+	}
+	return t
+}
+
+// CallParts returns the three parts of a Callable term (nil = absent).
+func CallParts(t Ty) [3]*Ty {
+	var out [3]*Ty
+	k := 0
+	for i := 0; i < 3; i++ {
+		if t.Has[i] {
+			x := t.Ts[k]
+			out[i] = &x
+			k++
+		}
+	}
+	return out
 }
 func Itr(t Ty) Ty                            { return Wrap1("itr", t) }
 func Alias(t Ty) Ty                          { return Wrap1("alias", t) }
@@ -227,6 +254,16 @@ func (t Ty) Sexp() sx.Sexp {
 		return sx.T("bool", sx.A("n"))
 	case "strval", "rx", "txt":
 		return sx.T(t.K, sx.Str(t.S[0]))
+	case "call":
+		ps := CallParts(t)
+		xs := make([]sx.Sexp, 3)
+		for i, p := range ps {
+			xs[i] = sx.A("none")
+			if p != nil {
+				xs[i] = sx.L(p.Sexp())
+			}
+		}
+		return sx.T("call", xs...)
 	case "rt":
 		pat := sx.A("none")
 		if len(t.S) > 2 {
@@ -433,6 +470,26 @@ func ParseTy(e sx.Sexp) (Ty, error) {
 			err = fmt.Errorf("nanoseconds out of range")
 		}
 		return t, err
+	case "call":
+		if err = arity(e, 3); err != nil {
+			return Ty{}, err
+		}
+		var ps [3]*Ty
+		for i := 0; i < 3; i++ {
+			if a[i].IsList {
+				if len(a[i].List) != 1 {
+					return Ty{}, fmt.Errorf("bad callable part")
+				}
+				p, err := ParseTy(a[i].List[0])
+				if err != nil {
+					return Ty{}, err
+				}
+				ps[i] = &p
+			} else if a[i].Atom != "none" {
+				return Ty{}, fmt.Errorf("bad callable part")
+			}
+		}
+		return Call(ps[0], ps[1], ps[2]), nil
 	case "rt":
 		if err = arity(e, 3); err != nil {
 			return Ty{}, err
